@@ -115,7 +115,9 @@ Docs == <<
   Obj(<<"a","b">>, <<Obj(<<"a","b">>, <<Num(1), Arr(<<Num(2), Obj(<<"a">>, <<Num(3)>>)>>)>>), Arr(<<Obj(<<"a">>, <<Num(4)>>), Obj(<<"a","b">>, <<Arr(<<Num(5)>>), Num(6)>>)>>)>>),
   Arr(<<Arr(<<Num(1), Num(2)>>), Obj(<<"a">>, <<Arr(<<Num(3)>>)>>), Str("s"), Arr(<<Obj(<<"0","1">>, <<Num(7), Num(8)>>)>>)>>),
   Obj(<<"0","1","a.b","b">>, <<Num(5), Obj(<<"a">>, <<Str("x")>>), Num(9), Obj(<<"b">>, <<Obj(<<"b">>, <<Num(0)>>)>>)>>),
-  Num(7)
+  Num(7),
+  (* strings that a careless value scanner trips over: ending in an escaped backslash, holding brackets, commas and an escaped quote *)
+  Arr(<<Str("c:\\\\"), Str("]"), Obj(<<"a","b">>, <<Str(",\\\"{"), Arr(<<Str("\\\\"), Num(1)>>)>>), Num(9)>>)
 >>
 
 RECURSIVE Texts(_)
